@@ -13,7 +13,7 @@ PROPS = {
     level_text="Unbounded proof (Verus) on the extracted real source: every slice/index/arithmetic/unwrap precondition in tokenizer, parser and printer is discharged and every loop and recursion has a decreasing measure, for all UTF-8 inputs. Stack depth is outside the verifier's model (known finding).",
     level_note="Assumes A1 A2 A3 A6 A7 (DESIGN.md 4); describe() is covered under C18; stack exhaustion is a known finding outside the model.",
     not_covered=["stack exhaustion (the verifier's model has an unbounded stack; known finding)", "describe() (C18)", "Decimal::from_str totality (A3)"]),
- 'C02': dict(units=['tp', 'lb'], assumptions=[A1, A2, A3, A6, A7, A8, "TP uses axiom_bp (binding powers of a registered infix operator are even >= 2 / odd >= 1); unit LB proves it (lemma_bp) for the real get_precidence under the domain 0 < p <= 10^9"],
+ 'C02': dict(units=['tp', 'lb', 'hv'], assumptions=[A1, A2, A3, A6, A7, A8, "TP uses axiom_bp (binding powers of a registered infix operator are even >= 2 / odd >= 1); unit LB proves it (lemma_bp) for the real get_precidence under the domain 0 < p <= 10^9"],
     level_text="Unbounded proof: every Parser::parse_* function returns Ok only with a ghost derivation witness that chains the tokenizer's tokens from the entry token to the exit token, carries the left/right spine precedence constraints under which the tree is unique, and whose AST is the result (loop invariant of the Pratt loop, all productions, any size).",
     level_note="Soundness of grouping; uniqueness of the witness and completeness of acceptance are not proved. Assumes A1 A2 A3 A6 A7 A8.",
     not_covered=["uniqueness of the derivation witness", NC_COMPLETE]),
@@ -35,7 +35,7 @@ PROPS = {
     level_text="Unbounded proof: exec returns sem(ast, ctx).0 and leaves ctx == sem(ast, ctx).1, where sem threads the state left to right through operands, arguments, elements, entries (key then value) and statements, stops at the first Err, applies a function after its arguments and evaluates one branch of a conditional.",
     level_note="Multiplicity of calls to an opaque handler with equal arguments is invisible (A4); order is decided through context effects and data flow.",
     not_covered=["number of invocations of an opaque handler with identical arguments (A4)"]),
- 'C08': dict(units=['lb', 'ev'], assumptions=[A1, A4, A5, A6, A8],
+ 'C08': dict(units=['lb', 'ev', 'hv'], assumptions=[A1, A4, A5, A6, A8],
     level_text="Unbounded proof: get_precidence returns (2p, 2p+-1) of the registered entry, lemma_bp_gate shows gate and loop test agree with the registered order for all precedences 0 < p <= 10^9 incl. adjacent ones; register_* and parse_expression establish init() before touching a registry; exec_function dispatches context function, then global, else Err; get_handler/get_op_type return the registered fields.",
     level_note="'most recently registered' over a history relies on HashMap::insert replacing (A5); interleavings are not quantified.",
     not_covered=["histories of registrations (A5)", "interleavings"]),
